@@ -115,7 +115,10 @@ def file_case(tier, seed, k):
     else:
         fmt = "MPS" if (sel & 3) == 1 else "LP"
         fn = "f%d.%s%s" % (k, fmt.lower(), comp)
-        L = ["read_prob p0 @W@/%s %s" % (fn, fmt), "dump p0", "storecheck p0", "write_prob p0 @W@/o%d.lp LP" % k, "write_prob p0 @W@/o%d.mps MPS" % k,
+        # plain files also go through a caller-supplied line reader with an error memory (with and without kept lines); every
+        # collected error is then printed to a stream that belongs to the caller
+        via = "read_prob p0 @W@/%s %s" % (fn, fmt) if comp or rnd.random() < 0.5 else "get_prob p0 @W@/%s %s %d" % (fn, fmt, rnd.choice([1, 2]))
+        L = [via, "dump p0", "storecheck p0", "write_prob p0 @W@/o%d.lp LP" % k, "write_prob p0 @W@/o%d.mps MPS" % k,
              "set_param p0 5 50", "solve_exact p0 dual - xy", "free p0"]
     return run.Case(cid, L, dict(kind="file", comp=comp), {fn: raw})
 
@@ -141,7 +144,12 @@ def files_chunk(payload):
                 what = "reader workload did not return within the watchdog (twice) in %s" % r.begun
                 part["violations"].append(dict(key="C11|file|hang|%s" % r.begun, what=what, replay=run.save_replay("C11", c, what)))
                 continue
-            rd = r.ev("read_prob")
+            rd = r.ev("read_prob") or r.ev("get_prob")
+            if rd is not None and rd.get("print_closed_stream"):
+                what = "QSerror_print closed the FILE* of its caller (after %d prints)" % rd.get("printed", 0)
+                part["violations"].append(dict(key="C11|error_print|closes-caller-stream", what=what, replay=run.save_replay("C11", c, what)))
+            if rd is not None and rd.get("printed"):
+                cnt["errors-printed-to-caller-stream"] = cnt.get("errors-printed-to-caller-stream", 0) + rd["printed"]
             if rd is not None:
                 cnt["read:" + ("accepted" if rd.get("rc") == 0 else "rejected")] = cnt.get("read:" + ("accepted" if rd.get("rc") == 0 else "rejected"), 0) + 1
                 for msg in rd.get("logs", []):
@@ -185,7 +193,7 @@ RULE = ("(1) libFuzzer (clang 14, ASan+UBSan, GMP on malloc) on fuzz_read: selec
         "mutants (truncations, p/0, 400-digit numbers, sign runs, 70 kB names, NUL/control bytes, CRLF, no final newline); a returned problem must have l<=u, unique names, "
         "consistent rows/nzcount, be writable as LP and MPS, solvable (50 iterations) and freeable; exit() from the library, timeouts (25 s) and sanitizer reports are findings; "
         "inputs with exponents of more than 4 digits are skipped; (2) the same kind of corpus as real plain/.gz/.bz2 (also truncated) files through QSread_prob/QSread_basis "
-        "with the gcc ASan+UBSan driver; evaluations = fuzz executions + file cases; distinct = distinct seed/corpus files")
+        "(plain files half of the time through QSget_prob with an error memory, with and without kept lines, every collected error printed twice to a stream of the caller that has to stay open) with the gcc ASan+UBSan driver; evaluations = fuzz executions + file cases; distinct = distinct seed/corpus files")
 
 
 def run_check(prop, tier, seed):
